@@ -256,9 +256,19 @@ func checkBuiltinLoops(w *World, e *Exec, traces []*tTrace) {
 					continue
 				case "seg":
 					if nseg == 0 && !inBody {
+						// the collection operand belongs to the enclosing expression: it is evaluated before the builtin
+						// opens its scope (inside, # and the loop variables would be the builtin's own)
+						if len(l.scopes) != 0 {
+							add("sem-scope", l.extra, False, "the collection operand is evaluated outside the builtin's own scope")
+						} else {
+							add("sem-scope", l.extra, True, "the collection operand is evaluated outside the builtin's own scope")
+						}
 						l.push(ctx.xs)
 						nseg++
 					} else {
+						if len(l.scopes) != 1 {
+							add("sem-scope", l.extra, False, "the closure body runs in exactly the builtin's scope")
+						}
 						// the closure body, run in the innermost scope
 						l.push(UF("evc", SVal, it.Child, l.scopeVar("array"), l.scopeVar("i")))
 						l.extra = append(l.extra, Eq(it.Child, ctx.closure))
@@ -355,6 +365,11 @@ func checkBuiltinLoops(w *World, e *Exec, traces []*tTrace) {
 					}
 				}
 				co.VCs = append(co.VCs, &VC{Asserts: as, Seq: nextVCSeq()})
+			}
+			if len(l.scopes) != 0 {
+				add("sem-scope", l.extra, False, "every path closes the scope the builtin opened")
+			} else {
+				add("sem-scope", l.extra, True, "every path closes the scope the builtin opened")
 			}
 			goal := []*Term{Eq(l.h(), BVBin("bvadd", h0, BV64(1))), below(l)}
 			add("sem-stack", l.extra, And(goal...), "the builtin leaves exactly one value and nothing else on the stack is changed")
